@@ -1,5 +1,6 @@
-(* C15 driver: replays op scripts (same syntax as harness/c15_life.cpp) on the extracted protocol model.
-   argv: fk fl (0/1: which code variant, see LifecycleModel.v).  Histories are separated by a line "====". *)
+(* C15 driver: replays op scripts (same syntax as harness/c15_life.cpp) on the extracted protocol model
+   (core model + checkpoint-vertex layer).  argv: fk fl [fc] (0/1: which code variant, see LifecycleModel.v).
+   Histories are separated by a line "====". *)
 open C15_model
 
 let rec nat_of_int n = if n <= 0 then O else S (nat_of_int (n - 1))
@@ -20,45 +21,57 @@ let canon_queue q =
     | AConn (c, ups) -> Printf.sprintf "CC:%d:%d" (int_of_nat c) (List.length ups) in
   List.sort compare (List.map item q)
 
-let dump line s =
+let dump line x =
+  let s = core x in
   if not (alive s) then Printf.printf "%s | destroyed\n" line
   else begin
     let ints l = List.sort compare (List.map int_of_nat l) in
-    Printf.printf "%s | obst%s | conns%s | q%s\n" line
+    (* live checkpoint vertices per connector, as the router's vertex list shows them *)
+    let owners = List.sort_uniq compare (List.map (fun (c, _) -> int_of_nat c) (cpv x)) in
+    let cps = List.filter (fun (_, n) -> n > 0)
+        (List.map (fun c -> (c, int_of_nat (live_cp x (nat_of_int c)))) owners) in
+    Printf.printf "%s | obst%s | conns%s | q%s | cp%s\n" line
       (String.concat "" (List.map (fun i -> " " ^ string_of_int i) (ints (active s))))
       (String.concat "" (List.map (fun i -> " " ^ string_of_int i) (ints (aconns s))))
       (String.concat "" (List.map (fun x -> " " ^ x) (canon_queue (queue s))))
+      (String.concat "" (List.map (fun (c, n) -> Printf.sprintf " %d:%d" c n) cps))
   end
 
 let () =
   let fk = Sys.argv.(1) = "1" and fl = Sys.argv.(2) = "1" in
-  let st = ref (init true) in
+  let fc = if Array.length Sys.argv > 3 then Sys.argv.(3) = "1" else true in
+  let st = ref (xinit true false) in
   let illegal = ref 0 in
   let finish () =
-    Printf.printf "END bad%s | leaked%s | illegal %d\n"
-      (String.concat "" (List.map (fun i -> " " ^ string_of_int (int_of_nat i)) (bad !st)))
-      (String.concat "" (List.map (fun i -> " " ^ string_of_int (int_of_nat i)) (if alive !st then [] else heap !st)))
+    let s = core !st in
+    Printf.printf "END bad%s%s | leaked%s%s | illegal %d\n"
+      (String.concat "" (List.map (fun i -> " " ^ string_of_int (int_of_nat i)) (bad s)))
+      (String.concat "" (List.map (fun i -> " v" ^ string_of_int (int_of_nat i)) (vbad !st)))
+      (String.concat "" (List.map (fun i -> " " ^ string_of_int (int_of_nat i)) (if alive s then [] else heap s)))
+      (String.concat "" (List.map (fun i -> " v" ^ string_of_int (int_of_nat i)) (if alive s then [] else vheap !st)))
       !illegal in
   (try
     while true do
       let line = input_line stdin in
-      if line = "====" then (finish (); st := init true; illegal := 0)
+      if line = "====" then (finish (); st := xinit true false; illegal := 0)
       else if line <> "" && line.[0] <> '#' then begin
         let toks = List.filter (fun x -> x <> "") (String.split_on_char ' ' line) in
         let n s = nat_of_int (int_of_string s) in
         let ops = match toks with
-          | ["R"; _; t] -> st := init (t = "1"); []
-          | "S" :: id :: _ -> [ONewObst (n id)]
-          | "J" :: id :: _ -> [ONewObst (n id)]
-          | "C" :: id :: r -> let (e1, r) = parse_end r in let (e2, _) = parse_end r in [ONewConn (n id, e1, e2)]
-          | "E" :: id :: w :: r -> let (e, _) = parse_end r in [OSetEnd (n id, (w = "1"), e)]
-          | "M" :: id :: _ -> [OMove (n id)]
-          | ["D"; id] | ["DJ"; id] -> [ODelObst (n id)]
-          | ["X"; id] -> [ODelConn (n id)]
-          | ["T"] -> [OProcess]
-          | ["Q"] -> [ODestroy]
+          | ["R"; o; t] -> st := xinit (t = "1") (o = "0"); []
+          | "S" :: id :: _ -> [XCore (ONewObst (n id))]
+          | "J" :: id :: _ -> [XCore (ONewObst (n id))]
+          | "C" :: id :: r -> let (e1, r) = parse_end r in let (e2, _) = parse_end r in [XCore (ONewConn (n id, e1, e2))]
+          | "E" :: id :: w :: r -> let (e, _) = parse_end r in [XCore (OSetEnd (n id, (w = "1"), e))]
+          | "M" :: id :: _ -> [XCore (OMove (n id))]
+          | ["D"; id] | ["DJ"; id] -> [XCore (ODelObst (n id))]
+          | ["X"; id] -> [XCore (ODelConn (n id))]
+          | "K" :: id :: k :: _ -> [XSetCP (n id, n k)]
+          | ["I"; _] -> []   (* makePathInvalid: no ownership effect *)
+          | ["T"] -> [XCore OProcess]
+          | ["Q"] -> [XCore ODestroy]
           | _ -> failwith ("bad line: " ^ line) in
-        List.iter (fun o -> if not (legal !st o) then incr illegal; st := step fk fl !st o) ops;
+        List.iter (fun o -> if not (xlegal !st o) then incr illegal; st := xstep fk fl fc !st o) ops;
         dump line !st
       end
     done
